@@ -567,6 +567,14 @@ pub fn min_len(data: &[u8], cap: usize, prefix: usize, modes: u8) -> Option<(usi
                     if j + 1 == n && body == cap {
                         upd(&mut best, body, i, Step::FinalC40Exact(m, len));
                     }
+                    // complete triples, exactly one codeword left in the symbol, two digits left in the data:
+                    // they are sent as that one ASCII codeword (a digit pair) without an unlatch.  (The crate's
+                    // own encoder writes this form; the same shortcut for one character that would need a
+                    // shift in this mode is decodable as well, but rule (d) of 5.2.5.2 speaks of one C40 value,
+                    // so it is not counted as an encoding the crate has to find.)
+                    if body + 1 == cap && has(Mode::Ascii) && j + 3 == n && data[n - 2].is_ascii_digit() && data[n - 1].is_ascii_digit() {
+                        upd(&mut best, cap, i, Step::FinalC40ImplicitPair(m, len + 2));
+                    }
                 }
                 if j + 1 == n {
                     if v % 3 == 2 && body + 2 == cap {
@@ -604,6 +612,9 @@ pub fn min_len(data: &[u8], cap: usize, prefix: usize, modes: u8) -> Option<(usi
                     }
                     if j + 1 == n && body == cap {
                         upd(&mut best, body, i, Step::FinalX12Exact(len));
+                    }
+                    if body + 1 == cap && has(Mode::Ascii) && j + 3 == n && data[n - 2].is_ascii_digit() && data[n - 1].is_ascii_digit() {
+                        upd(&mut best, cap, i, Step::FinalX12ImplicitPair(len + 2));
                     }
                 }
             }
@@ -645,6 +656,11 @@ pub fn min_len(data: &[u8], cap: usize, prefix: usize, modes: u8) -> Option<(usi
                     let body = base + 1 + 3 * (len / 4);
                     if j + 1 == n && body == cap {
                         upd(&mut best, body, i, Step::FinalEdifactExact(len));
+                    }
+                    // complete groups up to the end of the data and one or two codewords left in the symbol:
+                    // no unlatch (what follows is read as ASCII, i.e. as padding)
+                    if j + 1 == n && body < cap && cap - body <= 2 {
+                        upd(&mut best, body, i, Step::FinalEdifactAscii(len, 0));
                     }
                     // ascii tail without unlatch: remaining chars j+1..n in ASCII, <= 2 cw, and cap - body <= 2
                     if body <= cap && cap - body <= 2 && n - (j + 1) <= 4 && j + 1 < n && has(Mode::Ascii) {
